@@ -95,11 +95,36 @@ def _op_job():
     return None
 
 
+class Bare(Exception):
+    """marker: the injected failure reaches the server as ``aioftp.PathIOError()`` raised by the plug-in itself - without
+    the ``reason`` triple that only ``universal_exception`` fills in"""
+
+
+def _bare_aware(ue):
+    import functools
+    from aioftp import errors
+
+    def deco(f):
+        g = ue(f)
+
+        @functools.wraps(f)
+        async def wrapper(*a, **kw):
+            try:
+                return await g(*a, **kw)
+            except errors.PathIOError as exc:
+                reason = getattr(exc, "reason", None)
+                if reason and isinstance(reason[1], Bare):
+                    raise errors.PathIOError() from None
+                raise
+        return wrapper
+    return deco
+
+
 def make_spy(base, ctl):
     """subclass of ``base`` whose every abstract operation reports to ``ctl``"""
     from aioftp import pathio
     from aioftp.common import AbstractAsyncLister
-    ue = pathio.universal_exception
+    ue = _bare_aware(pathio.universal_exception)
 
     class Spy(base):
         _ctl = ctl
